@@ -44,7 +44,9 @@ def judge_value(v, texts, outs, res, tag):
     """all spellings of v must give the reference encoding, which parses back to v"""
     for name, sel in (("Json::canonicalize", None), ("Json::to_writer", "Json::to_writer"), ("JsonPretty::canonicalize", "JsonPretty::canonicalize"),
                       ("Json::canonicalize(Json::serialize)", "Json::canonicalize(Json::serialize)"),
-                      ("Json::to_writer(sink taking 3 bytes per call)", "Json::to_writer(sink taking 3 bytes per call)")):
+                      ("Json::to_writer(sink taking 3 bytes per call)", "Json::to_writer(sink taking 3 bytes per call)"),
+                      ("Json::from_slice + Json::canonicalize", "Json::from_slice + Json::canonicalize"),
+                      ("Json::from_reader + Json::canonicalize", "Json::from_reader + Json::canonicalize")):
         sub = [o if sel is None else o["routes"][sel] for o in outs if sel is None or "routes" in o]
         subt = [t for t, o in zip(texts, outs) if sel is None or "routes" in o]
         if sub:
@@ -159,7 +161,7 @@ def shard_random(binpath, seed, shard, nvalues, nspell):
         res.note(v, nontrivial, cls=["value:" + type(v).__name__], n=len(ts))
         if len({json.dumps(o, sort_keys=True) for o in os_}) > 1:
             res.classes["spellings_disagree"] += 1
-        res.classes["five_public_routes_agree"] += sum(1 for o in os_ if "routes" not in o)
+        res.classes["seven_public_routes_agree"] += sum(1 for o in os_ if "routes" not in o)
         judge_value(v, ts, os_, res, "random")
         if shard == 0:
             res.sample({"value": v, "spellings": ts[:3], "canonical": os_[0].get("ok")}, cap=3)
@@ -300,9 +302,9 @@ def main(ctx):
              "spellings each (member order, whitespace, escape spelling); non-trivial = non-empty string/array/object "
              "value, distinct by SHA-256 of the value; plus the complete one-character Unicode sweep and the "
              "number rejection classes",
-        assumptions=["routes compared: Json::canonicalize, Json::to_writer (into a Vec and into a sink taking 3 bytes per call), JsonPretty::canonicalize, Json::canonicalize of Json::serialize",
+        assumptions=["routes compared: Json::canonicalize, Json::to_writer (into a Vec and into a sink taking 3 bytes per call), JsonPretty::canonicalize, Json::canonicalize of Json::serialize, Json::from_slice / Json::from_reader of the text followed by Json::canonicalize",
                      "Python json.dumps(sort_keys, ensure_ascii=False, separators) is the reference encoder",
                      "serde_json is the parser that defines 'the same value' for a spelling"],
-        required=["nesting_depth_sweep", "five_public_routes_agree", "value:dict", "value:list", "value:str", "value:int", "non_integer_rejected", "value_after_rejected_document",
+        required=["nesting_depth_sweep", "seven_public_routes_agree", "value:dict", "value:list", "value:str", "value:int", "non_integer_rejected", "value_after_rejected_document",
                   "unicode_scalars_as_string_and_key"],
         min_evals=10000)
